@@ -27,6 +27,7 @@ Invariant stated in the theorems (and nowhere hidden):
 | `PrintDirective`, `PrintDirectiveLn` | `PrintDirective_agrees`, `PrintDirective_other`, `PrintDirectiveLn_agrees` | `printDirective` (below) |
 | `UpdatePadding`, `Initialize`, `New` | `UpdatePadding_agrees`, `Initialize_agrees`, `New_agrees` | `padTx`, `padDirs` (the folds of `JournalPrinter.padding`) |
 -/
+set_option linter.unusedSimpArgs false
 namespace Knut.FactsAgree.TransJPrinter
 open Knut Knut.GoSem
 open Knut.Generated.Go
